@@ -130,14 +130,14 @@ def run(case):
 
 
 def impl(case):
-    """what the model is compared on: the main object's elements after every step"""
+    """what the model is compared on: the object's and its derivatives' elements after every step"""
     out = run(case)
     res = []
     for o in out:
         if isinstance(o[0], str):
             res.append(o[0])
         else:
-            res.append(o[0])
+            res.append([o[0], [[d[0], d[1:]] for d in o[1]]])
     return res
 
 
@@ -323,14 +323,12 @@ def describe(case):
 
 # ------------------------------------------------------------------------------------------------ requests
 def modelled(case):
-    """the class the Lean model covers: no derivatives, right-hand side shapeless or of the selection's full rank"""
+    """the class the Lean model covers: no derivatives, general path, right-hand side with at most the selection's rank"""
     t = case['target']
-    if t.get('derivs'):
-        return False
     st_shape = t['shape']
     for a in case['steps']:
         r = a['rhs']
-        if r.get('derivs') or scalar_like(a['index']):
+        if scalar_like(a['index']):
             return False
         try:
             if not st_shape:
@@ -339,7 +337,7 @@ def modelled(case):
                 out_shape, _ = R.ref_select(st_shape, a['index'])
         except R.RefError:
             continue
-        if r['shape'] and len(r['shape']) != len(out_shape):
+        if len(r['shape']) > len(out_shape):
             return False
         try:
             if R.bshape([r['shape'], out_shape]) != list(out_shape):
@@ -347,6 +345,13 @@ def modelled(case):
         except R.RefError:
             return False
     return True
+
+
+def wire_derivs(q, shape, spec):
+    """(key base mask) of every derivative of a REAL object (masks read back from the objects)"""
+    if not isinstance(q, Qube):
+        return []
+    return [[key, spec[key]['base'], c09.wire_mask(q._derivs_[key]._mask_, shape)] for key in sorted(q._derivs_)]
 
 
 def request(case):
@@ -360,8 +365,9 @@ def request(case):
         r = a['rhs']
         rq = mk_rhs(r, t['cls'], t['item'], step)
         rmask = c09.wire_mask(rq._mask_, r['shape']) if isinstance(rq, Qube) else False
-        steps.append([c09.wire_index(shape, a['index']), list(r['shape']), rmask])
-    return ['c10', 'set', shape, c09.wire_mask(q._mask_, shape), steps]
+        steps.append([c09.wire_index(shape, a['index']), list(r['shape']), rmask,
+                      wire_derivs(rq, r['shape'], r.get('derivs') or {})])
+    return ['c10', 'set', shape, c09.wire_mask(q._mask_, shape), wire_derivs(q, shape, t.get('derivs') or {}), steps]
 
 
 # ------------------------------------------------------------------------------------------------ generation
